@@ -336,13 +336,46 @@ class Definition(Item):
             if not self.prop.is_equals():
                 raise ItemException("Definition %s: prop is not an equality" % self.name)
             
+            if self.prop.get_svars() or self.prop.get_stvars():
+                raise ItemException("Definition %s: schematic variables are not allowed" % self.name)
+
             f, args = self.prop.lhs.strip_comb()
             if f != Const(self.name, self.type):
                 raise ItemException("Definition %s: wrong head of lhs" % self.name)
+            if not all(v.is_var() for v in args):
+                raise ItemException("Definition %s: arguments on lhs must be variables" % self.name)
             lhs_vars = set(v.name for v in args)
             rhs_vars = set(v.name for v in self.prop.rhs.get_vars())
             if len(lhs_vars) != len(args):
                 raise ItemException("Definition %s: variables on lhs must be distinct" % self.name)
+            def overlaps(T1, T2):
+                # Whether two types have a common instance (type variables of
+                # the two sides are independent).
+                if T1.is_tvar() or T1.is_stvar() or T2.is_tvar() or T2.is_stvar():
+                    return True
+                return T1.name == T2.name and len(T1.args) == len(T2.args) and \
+                    all(overlaps(a1, a2) for a1, a2 in zip(T1.args, T2.args))
+            # Another instance of an overloaded constant may occur on the rhs
+            # if its type does not overlap with the type being defined.
+            is_overload = theory.thy.is_overload_const(self.name)
+            if any(c.name == self.name and (not is_overload or overlaps(c.T, self.type))
+                   for c in self.prop.rhs.get_consts()):
+                raise ItemException("Definition %s: %s occurs on the rhs" % (self.name, self.name))
+            rhs_tvars = set()
+            def collect_tvars(t):
+                if t.is_var() or t.is_const() or t.is_svar():
+                    rhs_tvars.update(T.name for T in t.T.get_tvars())
+                elif t.is_comb():
+                    collect_tvars(t.fun)
+                    collect_tvars(t.arg)
+                elif t.is_abs():
+                    rhs_tvars.update(T.name for T in t.var_T.get_tvars())
+                    collect_tvars(t.body)
+            collect_tvars(self.prop.rhs)
+            extra_tvars = rhs_tvars - set(T.name for T in self.type.get_tvars())
+            if extra_tvars:
+                raise ItemException("Definition %s: extra type variables in rhs: %s" % (
+                    self.name, ", ".join("'" + v for v in sorted(extra_tvars))))
             if not rhs_vars.issubset(lhs_vars):
                 raise ItemException(
                     "Definition %s: extra variables in rhs: %s" % (
@@ -701,6 +734,9 @@ class Datatype(Item):
         try:
             for constr in data['constrs']:
                 constr_type = parser.parse_type(constr['type'])
+                if len(constr['args']) != len(constr_type.strip_type()[0]):
+                    raise ItemException("Datatype %s: constructor %s: number of argument names differs from number of arguments" % (
+                        self.name, constr['name']))
                 self.constrs.append({
                     'name': constr['name'],
                     'type': constr_type,
